@@ -58,6 +58,18 @@ type Doc struct {
 // self-recursive named map, zero-length array
 type Tree map[string]Tree
 type Z struct{ E [0]int64 }
+
+// named containers declared (hence analysed) before the struct they are recursive with
+type Nodes []Node
+type Index map[string]Entry
+type Node struct{ Children Nodes }
+type Entry struct{ Sub Index }
+
+// a type reachable only through an ignored field is still part of the graph
+type WithIgnored struct {
+	A     int
+	Trail sub.Trail ` + "`gomacro:\"ignore\"`" + `
+}
 `
 
 const govcGraphSub = `package sub
@@ -72,6 +84,9 @@ type Audit struct {
 }
 
 type AuditMeta struct{ N int }
+
+type Trail struct{ Events []Event }
+type Event struct{ At int }
 
 const (
 	E0 E = iota
@@ -118,8 +133,8 @@ func TestGovcHarness_Graph(t *testing.T) {
 		}
 		last = n.Obj()
 	}
-	if len(ana.Source) != 13 {
-		fail("%d source declarations reported, want 13", len(ana.Source))
+	if len(ana.Source) != 18 {
+		fail("%d source declarations reported, want 18", len(ana.Source))
 	}
 	// faithfulness of every node of the table, and closure under links
 	seen := map[Type]bool{}
